@@ -46,3 +46,27 @@ Theorem C01_replay_checker :
            vyield t = w /\ vpost t = map fst reds /\ v = veval act t.
 Proof. exact Oracle.replay_sound. Qed.
 Print Assumptions C01_replay_checker.
+
+From YG Require Import LRBase Pipeline PipelineRun Drivers DriverSim.
+Close Scope Z_scope.
+Open Scope nat_scope.
+
+(* C01 for the tables the pipeline actually emits: for every grammar object on which generate_tables succeeds (grammar well-formedness facts as hypotheses), the dense matrix it produces - the one written into the -u and TypeScript outputs and compared cell by cell with the implementation on every run - drives the LR machine so that every accepted token string has a valid parse tree with root the start symbol, yield the input and post-order the reductions; whatever the lookaheads and however conflicts were resolved *)
+Theorem C01_pipeline :
+  forall gi : ginfo,
+         (forall r d : nat, nth_error (rhs_of (gi_rules gi) r) d <> Some 0) ->
+         lhs_of (gi_rules gi) 0 = 0 ->
+         (forall r d : nat, nth_error (rhs_of (gi_rules gi) r) d <> Some eof) ->
+         (exists S : nat, rhs_of (gi_rules gi) 0 = [S]) ->
+         eof < gi_nsyms gi ->
+         (forall (r : nat) (R : rule), nth_error (gi_rules gi) r = Some R -> lhs R < gi_nsyms gi) ->
+         forall t : tables,
+         generate_tables gi = inr t ->
+         forall (fuel : nat) (w reds : list nat),
+         (forall a : nat, In a w -> a <> eof /\ a < gi_nsyms gi) ->
+         run fuel (dense_action (length (t_aut t)) (t_dense t)) (gi_rules gi) [(0, eof)] w [] = Acc reds ->
+         exists tr : tree,
+           valid (gi_rules gi) tr /\
+           Some (root (gi_rules gi) tr) = hd_error (rhs_of (gi_rules gi) 0) /\ yield tr = w /\ post tr = reds.
+Proof. exact PipelineRun.pipeline_dense_sound. Qed.
+Print Assumptions C01_pipeline.
